@@ -40,6 +40,7 @@ fn mix(h: u64, x: u64) -> u64 {
 #[derive(Clone, Copy, PartialEq, Eq, Debug)]
 enum GOp {
     Ins(usize, usize, bool), // key, value, global
+    Ext(usize, usize),       // `extend([(key, value)])`: a local insert through the other public entry point
     Begin,
     End,
 }
@@ -49,6 +50,7 @@ fn enc_gops(ops: &[GOp]) -> String {
     for op in ops {
         match *op {
             GOp::Ins(k, val, g) => v.extend([g as i64, k as i64, val as i64]),
+            GOp::Ext(k, val) => v.extend([4, k as i64, val as i64]),
             GOp::Begin => v.push(2),
             GOp::End => v.push(3),
         }
@@ -73,6 +75,10 @@ fn dec_gops(n: usize, v: &[i64]) -> Vec<GOp> {
                 ops.push(GOp::End);
                 i += 1;
             }
+            4 => {
+                ops.push(GOp::Ext(v[i + 1] as usize, v[i + 2] as usize));
+                i += 3;
+            }
             x => panic!("bad op code {x}"),
         }
     }
@@ -92,10 +98,14 @@ fn alpha_op(i: usize) -> GOp {
 
 type GC<T> = GroupingContainer<usize, usize, T>;
 
-/// One op, then every key is read: exactly `DrvC20.mStep`.
+/// One op, then every key is read, then `len()` and `iter()`: exactly `DrvC20.mStep`.
 fn g_step<T: BackingContainer<usize, usize>>(m: &mut GC<T>, nkeys: usize, op: GOp, out: &mut Vec<u64>) {
     let code = match op {
         GOp::Ins(k, v, g) => m.insert(k, v, if g { Scope::Global } else { Scope::Local }) as u64,
+        GOp::Ext(k, v) => {
+            m.extend([(k, v)]);
+            2
+        }
         GOp::Begin => {
             m.begin_group();
             2
@@ -112,6 +122,10 @@ fn g_step<T: BackingContainer<usize, usize>>(m: &mut GC<T>, nkeys: usize, op: GO
             Some(v) => *v as u64 + 1,
         });
     }
+    // the other observers of the visible state: len()/is_empty() and iter() (order-independent sum)
+    let len = m.len() as u64;
+    out.push(if m.is_empty() == (len == 0) { len } else { 999_999 });
+    out.push(m.iter().map(|(k, v)| k as u64 * 31 + *v as u64 + 1).sum());
 }
 
 /// Canonical `iter_all`: each run of values sorted by key, a group boundary is `-1`.
@@ -190,6 +204,7 @@ fn op_kind(op: GOp) -> &'static str {
     match op {
         GOp::Ins(_, _, false) => "local-insert",
         GOp::Ins(_, _, true) => "global-insert",
+        GOp::Ext(..) => "extend",
         GOp::Begin => "begin_group",
         GOp::End => "end_group",
     }
@@ -200,12 +215,17 @@ fn trace_diff(nkeys: usize, ops: &[GOp], a: &[u64], b: &[u64]) -> Option<String>
     if a == b {
         return None;
     }
-    let w = nkeys + 1;
+    let w = nkeys + 3;
     let n = a.len().min(b.len());
     for i in 0..n {
         if a[i] != b[i] {
             let opi = i / w;
-            let what = if i % w == 0 { "result" } else { "visible value" };
+            let what = match i % w {
+                0 => "result",
+                x if x <= nkeys => "visible value",
+                x if x == nkeys + 1 => "len()",
+                _ => "iter()",
+            };
             return Some(format!("{what} after {}", ops.get(opi).map(|o| op_kind(*o)).unwrap_or("?")));
         }
     }
@@ -257,7 +277,10 @@ fn gm_tags(ops: &[GOp], out: &mut CaseOutcome) {
                 }
                 vis.insert(k);
             }
-            GOp::Ins(k, _, false) => {
+            GOp::Ins(k, _, false) | GOp::Ext(k, _) => {
+                if matches!(op, GOp::Ext(..)) {
+                    seen.insert("gm:extend");
+                }
                 let ex = vis.contains(&k);
                 match logs.last_mut() {
                     None => {
@@ -315,6 +338,9 @@ fn iter_tags(ops: &[GOp], out: &mut CaseOutcome) {
     let mut saved: Vec<HashMap<usize, usize>> = vec![];
     for op in ops {
         match *op {
+            GOp::Ext(k, v) => {
+                cur.insert(k, v);
+            }
             GOp::Ins(k, v, g) => {
                 cur.insert(k, v);
                 if g {
@@ -389,6 +415,12 @@ fn run_interner<S: std::hash::BuildHasher + Default>(strs: &[String], extras: &[
         let mut resolve_ok = true;
         let mut resolve_detail = String::new();
         for (i, s) in strs.iter().enumerate() {
+            // `get` before interning: a key exactly when the string was interned before
+            let earlier = strs[..i].iter().position(|t| t == s);
+            if it.get(s) != earlier.map(|j| raw[j]) {
+                resolve_ok = false;
+                resolve_detail = format!("get({s:?}) before interning #{i} is {:?}, expected the key of #{earlier:?}", it.get(s).map(|k| k.into_usize()));
+            }
             let k = it.get_or_intern(s);
             raw.push(k);
             keys.push(k.into_usize());
@@ -402,6 +434,14 @@ fn run_interner<S: std::hash::BuildHasher + Default>(strs: &[String], extras: &[
             if it.get(s) != Some(k) {
                 resolve_ok = false;
                 resolve_detail = format!("get({s:?}) after interning it is not its key");
+            }
+            // a key that was never handed out resolves to nothing
+            let distinct = keys.iter().collect::<HashSet<_>>().len();
+            if let Some(unused) = NonZeroU32::try_from_usize(distinct) {
+                if !raw.contains(&unused) && it.resolve(unused).is_some() {
+                    resolve_ok = false;
+                    resolve_detail = format!("after interning #{i}: a key never handed out resolves to {:?}", it.resolve(unused));
+                }
             }
         }
         // serde rebuild with the same kind of hasher
@@ -494,7 +534,7 @@ impl C20 {
         let v = parse_i64s(case.split_once(' ').unwrap().1);
         let (nkeys, split, n) = (v[0] as usize, v[1] as usize, v[2] as usize);
         let ops = dec_gops(n, &v[3..]);
-        out.nontrivial = ops.iter().any(|o| matches!(o, GOp::Ins(..))) && ops.iter().any(|o| matches!(o, GOp::Begin));
+        out.nontrivial = ops.iter().any(|o| matches!(o, GOp::Ins(..) | GOp::Ext(..))) && ops.iter().any(|o| matches!(o, GOp::Begin));
         if tags {
             gm_tags(&ops, out);
             iter_tags(&ops[..split.min(ops.len())], out);
@@ -508,7 +548,7 @@ impl C20 {
         if let Some(d) = trace_diff(nkeys, &ops, &m_trace, &s_trace) {
             out.fail(Kind::ModelVsSpec, "gmap", format!("gmap model/spec: {d}"), format!("model: {}\nspec: {}", parts[0], parts[1]));
         }
-        let w = nkeys + 1;
+        let w = nkeys + 3;
         let s_suffix: Vec<u64> = s_trace[(split.min(ops.len()) * w).min(s_trace.len())..].to_vec();
         if parts[3] != "panic" && parts[3] != "fuel" {
             if let Some(d) = trace_diff(nkeys, &ops[split.min(ops.len())..], &parse_u(parts[3]), &s_suffix) {
@@ -838,7 +878,7 @@ impl C20 {
                         out.fail(Kind::ImplVsSpec, &stream, format!("interner: {class}"), format!("strings {strs:?}\nimpl keys (canonical): {}\nspec: {}", show_u(&run.keys), parts[2]));
                     }
                     if !run.resolve_ok {
-                        out.fail(Kind::ImplVsSpec, &stream, "interner: resolve does not return the interned string", run.resolve_detail.clone());
+                        out.fail(Kind::ImplVsSpec, &stream, "interner: get/resolve disagree with the interned strings", run.resolve_detail.clone());
                     }
                     if run.after != spec_after || !run.get_same {
                         out.fail(
@@ -926,46 +966,57 @@ impl C20 {
     fn st_case(&mut self, case: &str, drv: &mut Driver, out: &mut CaseOutcome) {
         let v = parse_i64s(case.split_once(' ').unwrap().1);
         let t = v[0] as usize;
+        // rounds: every round is a first use of a fresh StaticTag by all threads at once
+        let rounds = v.get(1).copied().unwrap_or(1).max(1) as usize;
         out.nontrivial = t >= 2;
         out.tag("st:static-tag");
         let got = caught(|| {
             let before = Tag::new();
-            let cell = StaticTag::new();
+            let cells: Vec<StaticTag> = (0..rounds).map(|_| StaticTag::new()).collect();
             let barrier = std::sync::Barrier::new(t);
-            let mut res: Vec<Tag> = vec![];
+            let mut res: Vec<Vec<(Tag, Tag)>> = vec![];
             std::thread::scope(|s| {
                 let hs: Vec<_> = (0..t)
                     .map(|_| {
                         s.spawn(|| {
-                            barrier.wait();
-                            (cell.get(), cell.get())
+                            cells
+                                .iter()
+                                .map(|cell| {
+                                    barrier.wait();
+                                    (cell.get(), cell.get())
+                                })
+                                .collect::<Vec<(Tag, Tag)>>()
                         })
                     })
                     .collect();
                 for h in hs {
-                    let (a, b) = h.join().expect("static tag thread panicked");
-                    res.push(a);
-                    res.push(b);
+                    res.push(h.join().expect("static tag thread panicked"));
                 }
             });
             let after = Tag::new();
-            (before, res, after, cell.get())
+            let last: Vec<Tag> = cells.iter().map(|c| c.get()).collect();
+            (before, res, after, last)
         });
         match got {
             Err(p) => out.fail(Kind::ImplPanic, "static-tag", format!("panic {}", strip_msg(&p)), format!("StaticTag::get panicked: {p}")),
             Ok((before, res, after, last)) => {
-                let set: BTreeSet<Tag> = res.iter().copied().collect();
-                if set.len() != 1 || !set.contains(&last) {
-                    out.fail(Kind::ImplVsSpec, "static-tag", "static tag resolves to more than one value", format!("{t} threads: {set:?}"));
+                for (r, l) in last.iter().enumerate() {
+                    let set: BTreeSet<Tag> = res.iter().flat_map(|th| [th[r].0, th[r].1]).collect();
+                    if set.len() != 1 || !set.contains(l) {
+                        out.fail(Kind::ImplVsSpec, "static-tag", "static tag resolves to more than one value", format!("{t} threads, round {r}: {set:?}, later {l:?}"));
+                        break;
+                    }
                 }
-                if last == before || last == after {
+                let distinct: BTreeSet<Tag> = last.iter().copied().collect();
+                if distinct.len() != last.len() || distinct.contains(&before) || distinct.contains(&after) {
                     out.fail(Kind::ImplVsSpec, "static-tag", "static tag equals another tag", format!("{last:?}"));
                 }
-                if let (Some(b), Some(l), Some(a)) = (tag_value(before), tag_value(last), tag_value(after)) {
+                if let (Some(b), Some(a)) = (tag_value(before), tag_value(after)) {
+                    // M: one creation per cell (the model's `get` schedule on one cell, per round)
                     let m = drv.ask(&format!("st {} {t}", b + 1));
-                    let i = format!("count={t} min={l} max={l}");
-                    if i != m || a != b + 2 {
-                        out.fail(Kind::ImplVsModel, "static-tag", "static tag: not one creation", format!("impl: {i} next={a}\nmodel: {m}"));
+                    let want = format!("count={t} min={} max={}", b + 1, b + 1);
+                    if m != want || a != b + 1 + rounds as u64 {
+                        out.fail(Kind::ImplVsModel, "static-tag", "static tag: not one creation per cell", format!("{rounds} cells, counter went from {} to {a}\nmodel (one cell): {m}", b + 1));
                     }
                 }
             }
@@ -995,7 +1046,11 @@ impl C20 {
                     GOp::Ins(r.below(nkeys as u64) as usize, r.below(nvals as u64) as usize, false)
                 }
             } else if x < 10 {
-                GOp::Ins(r.below(nkeys as u64) as usize, r.below(nvals as u64) as usize, false)
+                if r.chance(1, 8) {
+                    GOp::Ext(r.below(nkeys as u64) as usize, r.below(nvals as u64) as usize)
+                } else {
+                    GOp::Ins(r.below(nkeys as u64) as usize, r.below(nvals as u64) as usize, false)
+                }
             } else {
                 GOp::Ins(r.below(nkeys as u64) as usize, r.below(nvals as u64) as usize, true)
             };
@@ -1226,7 +1281,7 @@ impl Property for C20 {
             for t in [1usize, 2, 4, 8, 16, 32, 64] {
                 v.push(format!("tg {t} {n}"));
                 v.push(format!("tg {t} 1"));
-                v.push(format!("st {t}"));
+                v.push(format!("st {t} {}", if t == 1 { 1 } else { 300 }));
             }
         }
         v
@@ -1279,7 +1334,7 @@ impl Property for C20 {
                         c.push(mk(if i < split { split - 1 } else { split }, &o));
                     }
                 }
-                if nkeys > 1 && ops.iter().all(|o| !matches!(o, GOp::Ins(k, _, _) if *k == nkeys - 1)) {
+                if nkeys > 1 && ops.iter().all(|o| !matches!(o, GOp::Ins(k, _, _) | GOp::Ext(k, _) if *k == nkeys - 1)) {
                     c.push(format!("gm {} {split} {n} {}", nkeys - 1, enc_gops(&ops)).trim_end().to_string());
                 }
             }
